@@ -408,7 +408,7 @@ fn run_bgzf(x: &[u8]) {
 // ---- CRAM with UNCOMPRESSED blocks, and every substitution RE-SEALED: the CRC32 of the container header or of the block that holds the
 // substituted byte (by the layout of the unmutated seed) is recomputed, so the corruption reaches the slice / record decoder instead of
 // stopping at a checksum.  Truncations are run as they are.
-fn cram_raw_seeds() -> Vec<Vec<u8>> {
+pub(crate) fn cram_raw_seeds() -> Vec<Vec<u8>> {
     use sam::alignment::io::Write as _;
     use noodles_cram::container::{block_content_encoder_map::Builder as MapBuilder, compression_header::data_series_encodings::DataSeries as D};
     let STANDARD_DATA_SERIES = [D::BamFlags, D::CramFlags, D::ReferenceSequenceIds, D::ReadLengths, D::AlignmentStarts, D::ReadGroupIds, D::Names, D::MateFlags, D::MateReferenceSequenceIds, D::MateAlignmentStarts, D::TemplateLengths, D::MateDistances, D::TagSetIds, D::FeatureCounts, D::FeatureCodes, D::FeaturePositionDeltas, D::DeletionLengths, D::StretchesOfBases, D::StretchesOfQualityScores, D::BaseSubstitutionCodes, D::InsertionBases, D::ReferenceSkipLengths, D::PaddingLengths, D::HardClipLengths, D::SoftClipBases, D::MappingQualities, D::Bases, D::QualityScores];
@@ -436,13 +436,19 @@ fn cram_sealed_regions(b: &[u8]) -> Vec<(usize, usize)> {
     }
     out
 }
+/// x: a same-length mutation of `seed`; the CRC32 of the sealed region (by the seed's layout) that holds the first differing byte is recomputed
+pub(crate) fn cram_reseal(seed: &[u8], regions: &[(usize, usize)], x: &[u8]) -> Vec<u8> {
+    let mut y = x.to_vec();
+    if x.len() == seed.len() { if let Some(p) = (0..x.len()).find(|&i| x[i] != seed[i]) { if let Some(&(a, e)) = regions.iter().find(|&&(a, e)| a <= p && p < e) { let c = crc32(&y[a..e]); y[e..e + 4].copy_from_slice(&c.to_le_bytes()); } } }
+    y
+}
+pub(crate) fn cram_sealed_regions_pub(b: &[u8]) -> Vec<(usize, usize)> { cram_sealed_regions(b) }
+pub(crate) fn run_cram_pub(x: &[u8]) { run_cram(x) }
 fn run_cram_resealed(x: &[u8]) {
     static LAYOUT: std::sync::OnceLock<(Vec<u8>, Vec<(usize, usize)>)> = std::sync::OnceLock::new();
     let (seed, regions) = LAYOUT.get_or_init(|| { let s = cram_raw_seeds().remove(0); let r = cram_sealed_regions(&s); (s, r) });
     if x.len() != seed.len() { run_cram(x); return; }
-    let mut y = x.to_vec();
-    if let Some(p) = (0..x.len()).find(|&i| x[i] != seed[i]) { if let Some(&(a, e)) = regions.iter().find(|&&(a, e)| a <= p && p < e) { let c = crc32(&y[a..e]); y[e..e + 4].copy_from_slice(&c.to_le_bytes()); } }
-    run_cram(&y);
+    run_cram(&cram_reseal(seed, regions, x));
 }
 fn run_cram(x: &[u8]) {
     let dbg = std::env::var_os("VERIF_DEBUG_CRAM").is_some();
